@@ -137,13 +137,21 @@ impl Sys {
         }
     }
     fn exec(&self, thread: usize, op: &COp) -> Option<u64> {
-        let h = self.handle(thread);
-        match (op, &h) {
+        // (no clone of the handle is made where the program shares ONE handle by reference)
+        let owned;
+        let h: &Ctr = match &self.lazy {
+            None => &self.c,
+            Some(_) => {
+                owned = self.handle(thread);
+                &owned
+            }
+        };
+        match (op, h) {
             (COp::Acquire, _) => {}
             (COp::LInc { slot, bit }, _) => {
                 let mut g = self.locals[*slot].lock().unwrap();
                 if g.is_none() {
-                    *g = Some(match &h {
+                    *g = Some(match h {
                         Ctr::F(c) => LCtr::F(c.local()),
                         Ctr::I(c) => LCtr::I(c.local()),
                     });
